@@ -388,16 +388,16 @@ theorem fixedRes_spec (a : Auction) (bids : List Bid) (m : MInfoG) :
       simp [hb, this]
 
 /-- **CalculateFixedPriceAllocation**: every bid converted on its own and summed per bidder -/
-theorem tie_CalculateFixedPriceAllocation (a : Auction) (bids : List Bid) :
-    (Gen.CalculateFixedPriceAllocation a bids).2 = false ∧
-    (Gen.CalculateFixedPriceAllocation a bids).1.matchedLen = (calcFixed a bids).matchedLen ∧
-    (Gen.CalculateFixedPriceAllocation a bids).1.price = (calcFixed a bids).price ∧
-    (Gen.CalculateFixedPriceAllocation a bids).1.total = (calcFixed a bids).total ∧
+theorem tie_CalculateFixedPriceAllocation (a : Auction) (bids : List Bid) (bidsF : Int → List Bid) (hbF : bidsF (a.id : Int) = bids) :
+    (Gen.CalculateFixedPriceAllocation a bidsF).2 = false ∧
+    (Gen.CalculateFixedPriceAllocation a bidsF).1.matchedLen = (calcFixed a bids).matchedLen ∧
+    (Gen.CalculateFixedPriceAllocation a bidsF).1.price = (calcFixed a bids).price ∧
+    (Gen.CalculateFixedPriceAllocation a bidsF).1.total = (calcFixed a bids).total ∧
     (calcFixed a bids).alloc =
-      (biddersOf bids).map (fun u => (u, ((Gen.CalculateFixedPriceAllocation a bids).1.alloc u).getD 0)) ∧
-    ∀ u, ((Gen.CalculateFixedPriceAllocation a bids).1.alloc u).isSome = (biddersOf bids).contains u := by
+      (biddersOf bids).map (fun u => (u, ((Gen.CalculateFixedPriceAllocation a bidsF).1.alloc u).getD 0)) ∧
+    ∀ u, ((Gen.CalculateFixedPriceAllocation a bidsF).1.alloc u).isSome = (biddersOf bids).contains u := by
   unfold Gen.CalculateFixedPriceAllocation
-  simp only [fixed_loop]
+  simp only [hbF, fixed_loop]
   obtain ⟨h1, h2, h3, h4⟩ := fixedRes_spec a bids ({ price := a.startPrice, total := (0 : Int), alloc := (fun _ => none) } : MInfoG)
   refine ⟨trivial, ?_, ?_, ?_, ?_, ?_⟩
   · rw [h1]; simp [calcFixed]
